@@ -22,51 +22,57 @@
 (*   k = "c2si"  constraint_to_si(c) = (sat, <<expr, bound>> list)         *)
 (* exc = "" or the name of the exception the call raised; cls = 1 marks an *)
 (* event of an exhaustive tier whose operands must lie in WFSetB(w).       *)
+(* bin/cmp/un/cat/join/meet travel as sub-events of k = "batch" lines:     *)
+(*   [k |-> "batch", A, B, cls, subs |-> << <<kind, op, how, exc, p, R,    *)
+(*   rb, C>>, ... >>]  (one line per operand tuple).                       *)
 (***************************************************************************)
 EXTENDS Term, SI, Json, IOUtils
 
 \* ---- helpers ----
 Certified(V) == Len(V) = 1 /\ WF(V[1]) /\ (V[1][5] = 1 \/ Normal(V[1])) /\ Len(V[1][6]) = 0
-OperandBad(e, Vs) == IF e.cls = 1 /\ \E i \in 1..Len(Vs) : ~Certified(Vs[i]) THEN {"operand"} ELSE {}
+OperandBad(cls, Vs) == IF cls = 1 /\ \E i \in 1..Len(Vs) : ~Certified(Vs[i]) THEN {"operand"} ELSE {}
 
-FailBin(e) ==
-  LET w == WidthV(e.A) MB == MemV(e.B) IN
-  OperandBad(e, <<e.A, e.B>>) \cup
-  (IF e.exc # "" THEN (IF ExcAllowed(e.op, MB) THEN {} ELSE {"exc"})
-   ELSE IF ~SameWidth(e.R, w) THEN {"width"}
-   ELSE IF SoundBin(e.op, w, MemV(e.A), MB, MemV(e.R)) THEN {} ELSE {"unsound"})
+\* The checks take their fields as explicit arguments so that the same operators serve stand-alone events and the
+\* sub-events of a k = "batch" line without building a record per sub-event.
+FailBin(op, A, B, R, exc, cls) ==
+  LET w == WidthV(A) MB == MemV(B) IN
+  OperandBad(cls, <<A, B>>) \cup
+  (IF exc # "" THEN (IF ExcAllowed(op, MB) THEN {} ELSE {"exc"})
+   ELSE IF ~SameWidth(R, w) THEN {"width"}
+   ELSE IF SoundBin(op, w, MemV(A), MB, MemV(R)) THEN {} ELSE {"unsound"})
 
-FailCmp(e) ==
-  OperandBad(e, <<e.A, e.B>>) \cup
-  (IF e.exc # "" THEN {"exc"}
-   ELSE IF SoundCmp(e.op, WidthV(e.A), MemV(e.A), MemV(e.B), e.rb) THEN {} ELSE {"unsound"})
+FailCmp(op, A, B, rb, exc, cls) ==
+  OperandBad(cls, <<A, B>>) \cup
+  (IF exc # "" THEN {"exc"}
+   ELSE IF SoundCmp(op, WidthV(A), MemV(A), MemV(B), rb) THEN {} ELSE {"unsound"})
 
-FailUn(e) ==
-  LET w == WidthV(e.A) IN
-  OperandBad(e, <<e.A>>) \cup
-  (IF e.exc # "" THEN {"exc"}
-   ELSE IF ~SameWidth(e.R, UnWidth(e.op, w, e.p)) THEN {"width"}
-   ELSE IF SoundUn(e.op, w, e.p, MemV(e.A), MemV(e.R)) THEN {} ELSE {"unsound"})
+FailUn(op, A, p, R, exc, cls) ==
+  LET w == WidthV(A) IN
+  OperandBad(cls, <<A>>) \cup
+  (IF exc # "" THEN {"exc"}
+   ELSE IF ~SameWidth(R, UnWidth(op, w, p)) THEN {"width"}
+   ELSE IF SoundUn(op, w, p, MemV(A), MemV(R)) THEN {} ELSE {"unsound"})
 
-FailCat(e) ==
-  OperandBad(e, <<e.A, e.B>>) \cup
-  (IF e.exc # "" THEN {"exc"}
-   ELSE IF ~SameWidth(e.R, WidthV(e.A) + WidthV(e.B)) THEN {"width"}
-   ELSE IF SoundConcat(WidthV(e.B), MemV(e.A), MemV(e.B), MemV(e.R)) THEN {} ELSE {"unsound"})
+FailCat(A, B, R, exc, cls) ==
+  OperandBad(cls, <<A, B>>) \cup
+  (IF exc # "" THEN {"exc"}
+   ELSE IF ~SameWidth(R, WidthV(A) + WidthV(B)) THEN {"width"}
+   ELSE IF SoundConcat(WidthV(B), MemV(A), MemV(B), MemV(R)) THEN {} ELSE {"unsound"})
 
-FailJoin(e) ==
-  LET Vs == IF e.n = 3 THEN <<e.A, e.B, e.C>> ELSE <<e.A, e.B>>
+\* C = <<>>: two operands; otherwise three (least_upper_bound of three, widen chains)
+FailJoin(A, B, C, R, exc, cls) ==
+  LET Vs == IF Len(C) > 0 THEN <<A, B, C>> ELSE <<A, B>>
       Ms == [i \in 1..Len(Vs) |-> MemV(Vs[i])] IN
-  OperandBad(e, Vs) \cup
-  (IF e.exc # "" THEN {"exc"}
-   ELSE IF ~SameWidth(e.R, WidthV(e.A)) THEN {"width"}
-   ELSE IF SoundJoin(Ms, MemV(e.R)) THEN {} ELSE {"unsound"})
+  OperandBad(cls, Vs) \cup
+  (IF exc # "" THEN {"exc"}
+   ELSE IF ~SameWidth(R, WidthV(A)) THEN {"width"}
+   ELSE IF SoundJoin(Ms, MemV(R)) THEN {} ELSE {"unsound"})
 
-FailMeet(e) ==
-  OperandBad(e, <<e.A, e.B>>) \cup
-  (IF e.exc # "" THEN {"exc"}
-   ELSE IF ~SameWidth(e.R, WidthV(e.A)) THEN {"width"}
-   ELSE IF SoundMeet(MemV(e.A), MemV(e.B), MemV(e.R)) THEN {} ELSE {"unsound"})
+FailMeet(A, B, R, exc, cls) ==
+  OperandBad(cls, <<A, B>>) \cup
+  (IF exc # "" THEN {"exc"}
+   ELSE IF ~SameWidth(R, WidthV(A)) THEN {"width"}
+   ELSE IF SoundMeet(MemV(A), MemV(B), MemV(R)) THEN {} ELSE {"unsound"})
 
 \* ---- queries.  mode "si": exact;  mode "set" (DSIS, ValueSet): enumerations may be partial, cardinality
 \*      is an upper bound (documented as an over-approximation) ----
@@ -79,7 +85,7 @@ FailQ(e) ==
                  ELSE IF e.mode = "multi" THEN Len(x[2]) <= x[1] /\ \A i \in 1..Len(x[2]) : Mod(x[2][i], P2(w)) \in M
                  ELSE EvalWeakOK(w, M, x[1], x[2])
   IN
-  OperandBad(e, <<e.A>>) \cup
+  OperandBad(e.cls, <<e.A>>) \cup
   (IF Len(e.qexc) > 0 THEN {"qexc"} ELSE {}) \cup
   (IF \A i \in 1..Len(e.evals) : EvOK(e.evals[i]) THEN {} ELSE {"eval"}) \cup
   (IF \A i \in 1..Len(e.sevals) : EvOK(e.sevals[i]) THEN {} ELSE {"seval"}) \cup
@@ -191,21 +197,31 @@ FailWide(e) ==
                   [] e.op = "UGE" -> \A i \in 1..n : (UCmp(e.xs[i][1], e.xs[i][2]) >= 0) \in Truth(e.rb))
             THEN {} ELSE {"unsound"}
 
-Failing(e) ==
-  CASE e.k = "bin" -> FailBin(e)
-    [] e.k = "wide" -> FailWide(e)
-    [] e.k = "cmp" -> FailCmp(e)
-    [] e.k = "un" -> FailUn(e)
-    [] e.k = "cat" -> FailCat(e)
-    [] e.k = "join" -> FailJoin(e)
-    [] e.k = "meet" -> FailMeet(e)
-    [] e.k = "q" -> FailQ(e)
+\* sub-event s = <<kind, op, entry points, exc, p, R, rb, C>> of operands A, B
+FailSub(A, B, cls, s) ==
+  CASE s[1] = "bin" -> FailBin(s[2], A, B, s[6], s[4], cls)
+    [] s[1] = "cmp" -> FailCmp(s[2], A, B, s[7], s[4], cls)
+    [] s[1] = "un" -> FailUn(s[2], A, s[5], s[6], s[4], cls)
+    [] s[1] = "cat" -> FailCat(A, B, s[6], s[4], cls)
+    [] s[1] = "join" -> FailJoin(A, B, s[8], s[6], s[4], cls)
+    [] s[1] = "meet" -> FailMeet(A, B, s[6], s[4], cls)
+
+FailOne(e) ==
+  CASE e.k = "q" -> FailQ(e)
     [] e.k = "opset" -> FailOpset(e)
     [] e.k = "vs" -> FailVS(e)
     [] e.k = "conv" -> FailConv(e)
     [] e.k = "c2si" -> FailC2si(e)
+    [] e.k = "wide" -> FailWide(e)
+
+\* k = "batch": all operations recorded for one operand tuple (A, B) share one line (JSON parsing dominates the
+\* cost of validation).  Failing clauses are reported with the index of the sub-event.
+Report(i, e) ==
+  IF e.k = "batch"
+  THEN \A j \in 1..Len(e.subs) : \A c \in FailSub(e.A, e.B, e.cls, e.subs[j]) : PrintT(<<"BAD", i, c, j>>)
+  ELSE \A c \in FailOne(e) : PrintT(<<"BAD", i, c, 0>>)
 
 ASSUME LET Trace == ndJsonDeserialize(IOEnv.TRACE_FILE) IN
-       /\ \A i \in 1..Len(Trace) : \A c \in Failing(Trace[i]) : PrintT(<<"BAD", i, c>>)
+       /\ \A i \in 1..Len(Trace) : Report(i, Trace[i])
        /\ PrintT(<<"DONE", Len(Trace)>>)
 =============================================================================
